@@ -398,6 +398,131 @@ def main():
 
     t_fam['A2'] += time.time()
 
+    # ---------------- A3. collections DERIVED from a collection that was observed before
+    # Mechanism class: a derived FeatureCollection / Track (result of filter_by_property / filter_by_dt / filter_by_intersection /
+    # filter_contained_by / filter_contains, of +, copy(), a Track time slice - and results of results) that inherits
+    # state of the collection it was derived from (a copy of the parent object with its cached bounds / geospan / hull, a
+    # shared cache, a shortcut constructor) instead of being a collection of its own members.  Members are scattered
+    # vertex shapes (most of them hold an extreme of the union); a seeded subset of bounds / geospan / convex_hull / centroid
+    # is read on the parent BEFORE each derivation (or nothing: control); C09 does not judge WHICH members a filter selects
+    # (C18 does): whatever members the result holds, its bounds must be the union of THEIR bounds (KUnion + direct oracle),
+    # the parent's bounds must still be the union of the parent's.
+    t_fam['A3'] = -time.time()
+    ND = 40 if ck.tier == 'quick' else 600
+    union_of = lambda bs_: (min(b_[0] for b_ in bs_), min(b_[1] for b_ in bs_), max(b_[2] for b_ in bs_), max(b_[3] for b_ in bs_))   # noqa: E731
+
+    def a3_member(spec, i_):
+        kw = {'dt': mk_dt(('i', i_)), 'properties': {'i': i_}}
+        vs = [C2(p_) for p_ in spec['vs']]
+        if spec['kind'] == 'point':
+            return GeoPoint(vs[0], **kw)
+        if spec['kind'] == 'linestring':
+            return GeoLineString(vs, **kw)
+        if spec['kind'] == 'box':
+            return GeoBox(vs[0], vs[1], **kw)
+        return GeoPolygon(vs + [vs[0]], **kw)
+
+    def a3_spec():
+        kind = rng.choice(['point', 'linestring', 'box', 'polygon'])
+        if kind == 'point':
+            return {'kind': kind, 'vs': rand_pts(rng, 1)}
+        if kind == 'linestring':
+            return {'kind': kind, 'vs': rand_pts(rng, rng.randint(2, 4), span=12)}
+        if kind == 'box':
+            a_, b_ = rand_pts(rng, 2, span=12)
+            if a_[0] == b_[0] or a_[1] == b_[1]:
+                b_ = (a_[0] + 3, a_[1] - 2)
+            return {'kind': kind, 'vs': [(min(a_[0], b_[0]), max(a_[1], b_[1])), (max(a_[0], b_[0]), min(a_[1], b_[1]))]}
+        return {'kind': kind, 'vs': star_polygon(rng, rng.randint(3, 6))}
+
+    def a3_derive(M, cls, members, op):
+        if op[0] == 'prop':
+            return M.filter_by_property('i', lambda v_: v_ in op[1])
+        if op[0] == 'dt':
+            return M.filter_by_dt(mk_dt(('v', op[1], op[2])))
+        if op[0] in ('int', 'within'):
+            ub = union_of([tuple(m_.bounds) for m_ in members if m_.properties['i'] in op[1]] or [tuple(members[0].bounds)])
+            q_ = GeoBox(Coordinate(ub[0] - 0.25, ub[3] + 0.25), Coordinate(ub[2] + 0.25, ub[1] - 0.25))
+            return M.filter_by_intersection(q_) if op[0] == 'int' else M.filter_contained_by(q_)
+        if op[0] == 'contains':
+            tgt = [m_ for m_ in members if m_.properties['i'] == op[1]] or members
+            return M.filter_contains(GeoPoint(tgt[0].centroid))
+        if op[0] == 'add':
+            other = cls([a3_member(sp_, 100 + j_) for j_, sp_ in enumerate(op[1])])
+            guarded(lambda: [getattr(other, a_) for a_ in op[2]])
+            return M + other if op[3] else other + M
+        if op[0] == 'copy':
+            return M.copy()
+        return M[mk_dt(('i', op[1])):mk_dt(('i', op[2]))]         # Track time slice
+
+    def a3_op(ids, is_track):
+        u = rng.random()
+        sub = sorted(rng.sample(ids, rng.randint(1, max(1, len(ids) - 1)))) if ids else []
+        if u < 0.25:
+            return ['prop', sub]
+        if u < 0.40:
+            a_ = rng.choice(ids or [0])
+            return ['dt', a_, max(a_, rng.choice(ids or [0]))]
+        if u < 0.65:
+            return [rng.choice(['int', 'within']), sub]
+        if u < 0.72:
+            return ['contains', rng.choice(ids or [0])]
+        if u < 0.84:
+            return ['add', [a3_spec() for _ in range(rng.randint(0, 2))], rng.sample(['bounds', 'geospan', 'convex_hull'], rng.randint(0, 2)), rng.random() < 0.6]
+        if u < 0.90 or not is_track:
+            return ['copy']
+        a_ = rng.choice(ids or [0])
+        return ['slice', a_, max(a_, rng.choice(ids or [0])) + 1]
+
+    a3_n = {'results': 0, 'smaller_after_read': 0, 'deeper': 0, 'empty': 0}
+    for it in range(ND):
+        cls = Track if it % 2 else FeatureCollection
+        specs = [a3_spec() for _ in range(rng.randint(3, 7))]
+        members = [a3_member(sp_, i_) for i_, sp_ in enumerate(specs)]
+        M = cls(list(members))
+        for _ in range(3):
+            chain, cur, cur_members, log = [], M, members, []
+            for depth in range(rng.choice([1, 1, 2, 3])):
+                reads = rng.sample(['bounds', 'geospan', 'convex_hull', 'centroid'], rng.randint(0, 3))
+                if rng.random() < 0.7 and 'bounds' not in reads:
+                    reads.append('bounds')
+                for a_ in reads:
+                    guarded(lambda: getattr(cur, a_))
+                op = a3_op([m_.properties['i'] for m_ in cur_members], cls is Track)
+                r = guarded(lambda: a3_derive(cur, cls, cur_members, op))
+                chain.append({'reads_on_the_parent_before': reads, 'derivation': op})
+                if r[0] != 'Ok' or not isinstance(r[1], (FeatureCollection, Track)):
+                    break                                  # what a derivation raises / returns is C18's clause
+                R_ = r[1]
+                rm = list(R_.geoshapes)
+                if not rm:
+                    a3_n['empty'] += 1
+                    break
+                bs = [ib(m_.bounds) for m_ in rm]
+                got = guarded(lambda: tuple(R_.bounds))
+                want = union_of([tuple(m_.bounds) for m_ in rm])
+                kindname = f'{cls.__name__.lower()}-derived:' + '>'.join(c_['derivation'][0] for c_ in chain)
+                hm = {'k': 'union-derived', 'kind': kindname, 'members': specs, 'chain': chain, 'result_member_ids': [m_.properties['i'] for m_ in rm], 'bs': bs}
+                if got[0] != 'Ok' or ib(got[1]) is not None:
+                    add(f'KUnion {listlit([bndlit(x) for x in bs])} {reslit((got[0], ib(got[1])) if got[0] == "Ok" else got, bndlit)}', hm)
+                nontriv.add((kindname, tuple(bs), depth))
+                a3_n['results'] += 1
+                a3_n['deeper'] += depth > 0
+                if 'bounds' in reads or 'geospan' in reads:
+                    a3_n['smaller_after_read'] += want != union_of([tuple(m_.bounds) for m_ in cur_members])
+                ck.count('derived-collection-bounds:' + op[0])
+                if got != ('Ok', want):
+                    prop_viol.append({'clause': 'the bounds of a collection are the union of its members\' bounds (collection derived from one that was observed before)',
+                                      'collection': cls.__name__, 'members': specs, 'chain': chain, 'result_member_ids': hm['result_member_ids'],
+                                      'result_bounds': got, 'union_of_the_result_members_bounds': want})
+                cur, cur_members = R_, rm
+            pb = guarded(lambda: tuple(M.bounds))
+            if pb != ('Ok', union_of([tuple(m_.bounds) for m_ in members])):
+                prop_viol.append({'clause': 'the bounds of a collection are still the union of its members\' bounds after collections were derived from it',
+                                  'collection': cls.__name__, 'members': specs, 'chain': chain, 'bounds': pb})
+    ck.cov['derived_collection_bounds'] = a3_n
+    t_fam['A3'] += time.time()
+
     # unions whose extreme on one side is EXACTLY 0 (a falsy value), held by the member at every position,
     # the other members not reaching 0 on that side
     for side in range(4):                       # 0 min lon, 1 min lat, 2 max lon, 3 max lat
